@@ -8,6 +8,63 @@ import traceback
 from . import core
 
 
+_ST = None
+
+
+def _st_job(mutant):
+    pid, modname, base_keys = _ST
+    mod = importlib.import_module(modname)
+    ov = {}
+    for c in mutant['changes']:
+        src = ov.get(c['file'])
+        if src is None:
+            try:
+                src = (core.REPO / c['file']).read_text()
+            except OSError:
+                return (mutant['name'], 'stale')
+        if src.count(c['find']) != 1:
+            return (mutant['name'], 'stale')
+        ov[c['file']] = src.replace(c['find'], c['replace'])
+    try:
+        repo = core.Repo(overrides=ov)
+    except core.AnalysisError:
+        return (mutant['name'], 'stale')
+    chk = core.Check(pid, 'quick', repo)
+    try:
+        mod.run(chk)
+    except core.AnalysisError:
+        pass
+    new = {o['key'] for o in chk.obs if not o['ok']} - base_keys
+    return (mutant['name'], 'reported' if new else 'MISSED')
+
+
+def selftest(pid, mod, chk):
+    """Thorough tier: replay, in memory, every recorded variant of the tree that
+    this property's check is known to report (reverse of each repair, seeded
+    changes) and insist that it is still reported - a rule that has silently
+    stopped matching must not answer ok."""
+    import json
+    import multiprocessing as mp
+
+    global _ST
+    p = core.VERIF / 'selftest' / 'mutants.json'
+    if not p.exists():
+        raise core.AnalysisError('selftest/mutants.json is missing')
+    mutants = [m for m in json.loads(p.read_text())['mutants'] if pid in m['expect']]
+    base_keys = {o['key'] for o in chk.obs if not o['ok']}
+    _ST = (pid, mod.__name__, base_keys)
+    try:
+        with mp.get_context('fork').Pool(min(16, max(1, len(mutants)))) as pool:
+            res = pool.map(_st_job, mutants)
+    except Exception:
+        res = [_st_job(m) for m in mutants]
+    missed = [n for n, r in res if r == 'MISSED']
+    chk.extra['selftest'] = {'variants_replayed': len(res), 'reported': sum(1 for _, r in res if r == 'reported'), 'stale_context': [n for n, r in res if r == 'stale'], 'missed': missed}
+    print(f"selftest {pid}: {len(res)} recorded variants, {chk.extra['selftest']['reported']} reported, {len(chk.extra['selftest']['stale_context'])} stale, {len(missed)} missed")
+    if missed:
+        raise core.AnalysisError(f'self-test: variants that this check used to report are no longer reported: {missed}')
+
+
 def run(pid, tier, replay=None):
     try:
         repo = core.Repo()
@@ -16,6 +73,8 @@ def run(pid, tier, replay=None):
         mod.run(chk)
         if not chk.obs:
             raise core.AnalysisError('no obligation was generated')
+        if tier == 'thorough' and not replay:
+            selftest(pid, mod, chk)
         if replay:
             import json
 
